@@ -143,6 +143,36 @@ class DeviceModel(Listener):
         else:
             raise ValueError("unknown reply mode %r" % mode)
 
+    def _apply_ir(self, text: bytes) -> None:
+        """The air conditioner obeys the IR code it was sent (so that a later state query reflects it)."""
+        import re
+        key = self.cfg["ir_table"].get(text.decode("ascii", "replace"))
+        if key is None:
+            return
+        st = self.state
+        toggle = bool(self.cfg.get("ir_toggle"))
+        if key == "off":
+            st["t_on"] = False
+            return
+        if key.startswith("FUN_d"):
+            st["t_swing"] = 1 if key.endswith("1") else 0
+            return
+        if key.startswith("on_"):
+            st["t_on"] = not st["t_on"]
+            key = key[3:]
+        elif not toggle:
+            st["t_on"] = True
+        m = re.match(r"^(a[adwrh])(\d\d)?(?:_f(\d))?(_d1)?$", key)
+        if not m:
+            return
+        st["t_mode"] = {"aa": 1, "ad": 2, "aw": 3, "ar": 4, "ah": 5}[m.group(1)]
+        if m.group(2):
+            st["t_target"] = int(m.group(2))
+        if m.group(3) is not None:
+            st["t_fan"] = int(m.group(3))
+        if not self.cfg.get("ir_special"):
+            st["t_swing"] = 1 if m.group(4) else 0
+
     # -- protocol behaviour
     def _reply_for(self, conn: TcpConn, kind: str, u: bytes):
         st = self.state
@@ -185,6 +215,8 @@ class DeviceModel(Listener):
             st["position"] = u[83]
         elif kind == "runner_stop":
             st["direction"] = "0000"
+        elif kind == "breeze_command" and len(u) > 91 and self.cfg.get("ir_table"):
+            self._apply_ir(u[87:-4])
         elif kind == "breeze_update" and len(u) >= 90:
             st["t_on"] = u[86] == 1
             if u[87] in codecs.MODES:
